@@ -92,7 +92,7 @@ def gen_ops(rng, nops, allow_skip=False, allow_unmodelled=True, nvars=6):
         elif allow_skip and r < 0.93:
             ops.append(["skipmin", a] if rng.random() < 0.6 else ["skiprem"])
         elif rng.random() < 0.35:
-            ops.append([rng.choice(["pnet", "pnet", "cands", "seedsq"]), a])
+            ops.append([rng.choice(["pnet", "pnet", "cands", "seedsq", "readonly", "readonly"]), a])
         elif allow_unmodelled:
             if rng.random() < 0.5:
                 ops.append(["aseeds", rng.choice(LIMS)])
@@ -234,6 +234,26 @@ def apply_op(sd, ni, op):
             return str(bool(r)).lower(), None
         if kind == "pnet":
             sd.node_percolated_petri_net(op[1] % n, compute=True)
+            return "none", "NOP"
+        if kind == "readonly":
+            # queries that must not change anything observable
+            from biobalm.control import successions_to_target
+            i = op[1] % n
+            for u, v in list(sd.dag.edges())[:8]:
+                sd.edge_stable_motif(u, v, reduced=True)
+                sd.edge_all_stable_motifs(u, v, reduced=True)
+                sd.edge_all_stable_motifs(u, v)
+            sd.summary()
+            sd.depth()
+            sd.minimal_trap_spaces()
+            sd.find_node(sd.node_data(i)["space"])
+            sd.is_subgraph(sd)
+            if sd.node_data(i)["expanded"]:
+                sd.node_successors(i)
+            try:
+                successions_to_target(sd, dict(sd.node_data(i)["space"]) or {ni.names[0]: 1}, expand_diagram=False)
+            except KeyError:
+                pass
             return "none", "NOP"
         if kind == "cands":
             try:
